@@ -1,7 +1,7 @@
 #!/usr/bin/env bash
 # usage: try_mutant.sh <seeded dir> <prop> [<prop> ...]  -- apply patch to /repo, run checks, revert.
 # Evidence files are saved and restored: evidence committed under /verif must come from the unchanged tree.
-exec 9>/root/scratch/repo.lock; flock 9   # one user of /repo's working tree at a time
+mkdir -p /root/scratch; exec 9>/root/scratch/repo.lock; flock 9   # one user of /repo's working tree at a time
 D="$(cd "$1" && pwd)"; shift
 BK="$(mktemp -d /root/scratch/evbk.XXXX)"; cp -a /verif/evidence/. "$BK"/
 git -C /repo apply "$D/patch.diff" || { echo "patch does not apply"; rm -rf "$BK"; exit 3; }
